@@ -50,6 +50,16 @@ impl StatementBatch {
                         // the catching task runs again, save the new state
                         ctx.runtime.scher().emit_task_event(&task)?;
 
+                        // the children that failed are left for good, close the tasks that
+                        // are still open beneath them
+                        for child in ctx.proc.tasks() {
+                            if child.state().is_error()
+                                && child.parent().is_some_and(|p| p.id == task.id)
+                            {
+                                ctx.skip_tasks_beneath(&child)?;
+                            }
+                        }
+
                         let children = task.node().children_in(NodeOutputKind::Catch, c.on.clone());
 
                         if !children.is_empty() {
